@@ -40,6 +40,10 @@ def run(chk):
             jobs.append((chk.seed * 2000 + k, cfg, {}, None, 10 if thorough else 6, False, "clean"))
         else:
             fault = {"drop": rng.choice([0.1, 0.3, 0.6, 1.0]), "dup": rng.choice([0.0, 0.3]), "delay": rng.choice([0, 200, 2000]), "ms": rng.choice([5000, 15000, 40000])}
+            if cfg["raw_mode"] or cfg["seltimeout"] > 2:
+                # "never starving either side for 60 s": the client itself only pings every `selecttimeout` (20 s in raw mode) seconds, so a long
+                # total black-out plus its own idle gap would exceed the session timeout without the network being bad for 60 s
+                fault["ms"] = min(fault["ms"], 15000)
             jobs.append((chk.seed * 2000 + k, cfg, {}, fault, 4, False, "recovery"))
     res = W.run_worlds(jobs)
     bad, delivered = 0, 0
@@ -96,7 +100,7 @@ def run(chk):
     chk.notes["recovery_part_is_a_test"] = True
     for r in res[:2]:
         chk.sample({"cfg": r["cfg"], "negotiated": r["negotiated"], "scenario": r["scenario"], "fault": r["fault"], "delivered": len(r["tunw_s"]) + len(r["tunw_c"])})
-    if bad == 0 and not proof_ok:
+    if not chk.violations and not proof_ok:
         chk.violation("proof obligation no longer checks: " + chk.proof_detail,
                       ["# theorems of Props/C02.lean: " + ", ".join(vlib.prop_theorems("C02")), "# " + chk.proof_detail.replace("\n", "\n# ")], no_input=True)
 
